@@ -22,10 +22,13 @@
 (* Prior = TRUE models a single-threaded call (getDimension, an            *)
 (* evaluation, ...) made before the threads start: the cache is clean.     *)
 (*                                                                         *)
-(* DataRaceFree: no location is accessed by two different threads, at      *)
-(* least once for writing, unless every one of those accesses holds the    *)
-(* mutex or the location is the atomic flag.  (Nothing else orders the     *)
-(* threads: they all start after the configuration and join at the end.)   *)
+(* DataRaceFree: two accesses to one location by different threads, at     *)
+(* least one a write, must be ordered by happens-before: both under the    *)
+(* mutex, or the location is the atomic flag, or the write was published   *)
+(* (release store of the flag / mutex release) and the reader had observed *)
+(* that publication (acquire load / mutex acquire) before reading.         *)
+(* Nothing else orders the threads: they all start after the               *)
+(* configuration and join at the end.                                      *)
 (* ResultIsSerial: every evaluator decodes exactly the layout of the       *)
 (* configuration and reduces the slots in index order.                     *)
 (***************************************************************************)
@@ -45,19 +48,25 @@ VARIABLES dirty,        \* the dirty bit
           pending,      \* per evaluator: tasks not yet run
           slots,        \* per evaluator: slots written by its tasks
           order,        \* per evaluator: order in which contributions were added to the result
-          acc           \* history: accesses <<location, "r"/"w", thread, held lock?>>
-vars == <<dirty, vec, lock, pc, k, decoded, pending, slots, order, acc>>
+          acc,          \* history: accesses [loc, kind "r"/"w", th, held (mutex held?), hb (publications observed), seq]
+          hb,           \* per evaluator: evaluators whose publication it has observed (acquire side)
+          pub,          \* evaluators that have published a completed fill (release side)
+          seq           \* step counter (trace order of the accesses)
+vars == <<dirty, vec, lock, pc, k, decoded, pending, slots, order, acc, hb, pub, seq>>
 
 TrueLayout == [i \in 1..NPoints |-> i]
 Th(e, w) == <<e, w>>          \* a thread: evaluator e itself is Th(e, 0); its executor's workers are Th(e, w)
-Log(loc, kind, th, held) == acc' = acc \cup {<<loc, kind, th, held>>}
-Log2(a, b) == acc' = acc \cup {a, b}
+Rec(loc, kind, th, held) == [loc |-> loc, kind |-> kind, th |-> th, held |-> held, hb |-> hb[th[1]], seq |-> seq]
+Log(loc, kind, th, held) == acc' = acc \cup {Rec(loc, kind, th, held)} /\ seq' = seq + 1
+Log2(a, b) == acc' = acc \cup {a, b} /\ seq' = seq + 1
+NoLog == UNCHANGED <<acc, seq>>
 
 Init ==
     /\ dirty = ~Prior /\ vec = (IF Prior THEN TrueLayout ELSE <<>>) /\ lock = 0
     /\ pc = [e \in Evals |-> "check"] /\ k = [e \in Evals |-> 0]
     /\ decoded = [e \in Evals |-> <<>>] /\ pending = [e \in Evals |-> 1..NSegs]
     /\ slots = [e \in Evals |-> {}] /\ order = [e \in Evals |-> <<>>] /\ acc = {}
+    /\ hb = [e \in Evals |-> {}] /\ pub = {} /\ seq = 0
 
 Locked == Mode # "unlocked"
 Held(e) == lock = e
@@ -65,46 +74,49 @@ Held(e) == lock = e
 \* first (unlocked) test of the dirty flag
 Check(e) ==
     /\ pc[e] = "check"
-    /\ Log("dirty", "r", Th(e, 0), FALSE)
+    /\ Log(<<"dirty">>, "r", Th(e, 0), FALSE)
     /\ pc' = [pc EXCEPT ![e] = IF dirty THEN (IF Locked THEN "acquire" ELSE "clear") ELSE "decode"]
-    /\ UNCHANGED <<dirty, vec, lock, k, decoded, pending, slots, order>>
+    /\ hb' = [hb EXCEPT ![e] = IF Locked /\ ~dirty THEN @ \cup pub ELSE @]      \* acquire load of the atomic flag
+    /\ UNCHANGED <<dirty, vec, lock, k, decoded, pending, slots, order, pub>>
 Acquire(e) ==
     /\ pc[e] = "acquire" /\ lock = 0
     /\ lock' = e
     /\ pc' = [pc EXCEPT ![e] = "recheck"]
-    /\ UNCHANGED <<dirty, vec, k, decoded, pending, slots, order, acc>>
+    /\ hb' = [hb EXCEPT ![e] = @ \cup pub]                                        \* mutex acquire
+    /\ NoLog /\ UNCHANGED <<dirty, vec, k, decoded, pending, slots, order, pub>>
 Recheck(e) ==
     /\ pc[e] = "recheck"
-    /\ Log("dirty", "r", Th(e, 0), TRUE)
+    /\ Log(<<"dirty">>, "r", Th(e, 0), TRUE)
     /\ pc' = [pc EXCEPT ![e] = IF dirty THEN "clear" ELSE "release"]
-    /\ UNCHANGED <<dirty, vec, lock, k, decoded, pending, slots, order>>
+    /\ UNCHANGED <<dirty, vec, lock, k, decoded, pending, slots, order, hb, pub>>
 Clear(e) ==
     /\ pc[e] = "clear"
-    /\ vec' = <<>> /\ Log("vec", "w", Th(e, 0), Held(e))
+    /\ vec' = <<>> /\ Log(<<"vec">>, "w", Th(e, 0), Held(e))
     /\ k' = [k EXCEPT ![e] = 1]
     /\ pc' = [pc EXCEPT ![e] = "push"]
-    /\ UNCHANGED <<dirty, lock, decoded, pending, slots, order>>
+    /\ UNCHANGED <<dirty, lock, decoded, pending, slots, order, hb, pub>>
 Push(e) ==
     /\ pc[e] = "push"
     /\ IF k[e] <= NPoints
-       THEN /\ vec' = Append(vec, k[e]) /\ Log("vec", "w", Th(e, 0), Held(e))
+       THEN /\ vec' = Append(vec, k[e]) /\ Log(<<"vec">>, "w", Th(e, 0), Held(e))
             /\ k' = [k EXCEPT ![e] = @ + 1] /\ UNCHANGED <<pc, dirty>>
-       ELSE /\ dirty' = FALSE /\ Log("dirty", "w", Th(e, 0), Held(e))
+       ELSE /\ dirty' = FALSE /\ Log(<<"dirty">>, "w", Th(e, 0), Held(e))
             /\ pc' = [pc EXCEPT ![e] = IF Locked THEN "release" ELSE "decode"] /\ UNCHANGED <<vec, k>>
-    /\ UNCHANGED <<lock, decoded, pending, slots, order>>
+    /\ pub' = IF k[e] > NPoints /\ Locked THEN pub \cup {e} ELSE pub             \* release store of the atomic flag
+    /\ UNCHANGED <<lock, decoded, pending, slots, order, hb>>
 Release(e) ==
     /\ pc[e] = "release" /\ lock = e
     /\ lock' = 0
     /\ pc' = [pc EXCEPT ![e] = "decode"]
-    /\ UNCHANGED <<dirty, vec, k, decoded, pending, slots, order, acc>>
+    /\ NoLog /\ UNCHANGED <<dirty, vec, k, decoded, pending, slots, order, hb, pub>>
 \* the decode loops iterate over the shared vector (reads, outside any lock)
 Decode(e) ==
     /\ pc[e] = "decode"
-    /\ Log("vec", "r", Th(e, 0), FALSE)
+    /\ Log(<<"vec">>, "r", Th(e, 0), FALSE)
     /\ IF Len(decoded[e]) < Len(vec)
        THEN decoded' = [decoded EXCEPT ![e] = Append(@, vec[Len(@) + 1])] /\ UNCHANGED pc
        ELSE pc' = [pc EXCEPT ![e] = "tasks"] /\ UNCHANGED decoded
-    /\ UNCHANGED <<dirty, vec, lock, k, pending, slots, order>>
+    /\ UNCHANGED <<dirty, vec, lock, k, pending, slots, order, hb, pub>>
 \* the executor: any pending task on any worker
 Task(e, w, i) ==
     /\ pc[e] = "tasks" /\ i \in pending[e]
@@ -112,19 +124,19 @@ Task(e, w, i) ==
     /\ slots' = [slots EXCEPT ![e] = @ \cup {i}]
     /\ IF Mode = "intask"
        THEN /\ order' = [order EXCEPT ![e] = Append(@, i)]                       \* reduction moved into the task
-            /\ Log2(<<<<"slot", e, i>>, "w", Th(e, w), FALSE>>, <<<<"total", e>>, "w", Th(e, w), FALSE>>)
+            /\ Log2(Rec(<<"slot", e, i>>, "w", Th(e, w), FALSE), Rec(<<"total", e>>, "w", Th(e, w), FALSE))
        ELSE /\ UNCHANGED order /\ Log(<<"slot", e, i>>, "w", Th(e, w), FALSE)
-    /\ UNCHANGED <<dirty, vec, lock, pc, k, decoded>>
+    /\ UNCHANGED <<dirty, vec, lock, pc, k, decoded, hb, pub>>
 TasksDone(e) ==
     /\ pc[e] = "tasks" /\ pending[e] = {}
     /\ pc' = [pc EXCEPT ![e] = "reduce"]
-    /\ UNCHANGED <<dirty, vec, lock, k, decoded, pending, slots, order, acc>>
+    /\ NoLog /\ UNCHANGED <<dirty, vec, lock, k, decoded, pending, slots, order, hb, pub>>
 \* serial reductions on the calling thread, in index order (after the executor has joined its workers)
 Reduce(e) ==
     /\ pc[e] = "reduce"
     /\ order' = [order EXCEPT ![e] = IF Mode = "intask" THEN @ ELSE [i \in 1..NSegs |-> i]]
     /\ pc' = [pc EXCEPT ![e] = "done"]
-    /\ UNCHANGED <<dirty, vec, lock, k, decoded, pending, slots, acc>>
+    /\ NoLog /\ UNCHANGED <<dirty, vec, lock, k, decoded, pending, slots, hb, pub>>
 
 Next == \E e \in Evals :
             \/ Check(e) \/ Acquire(e) \/ Recheck(e) \/ Clear(e) \/ Push(e) \/ Release(e) \/ Decode(e) \/ TasksDone(e) \/ Reduce(e)
@@ -135,11 +147,13 @@ Spec == Init /\ [][Next]_vars
 \* the executor joins its workers before the caller continues: workers of one evaluation are ordered with their own caller
 \* but not with each other and not with other evaluators
 Unordered(t1, t2) == t1 # t2 /\ ~(t1[1] = t2[1] /\ (t1[2] = 0 \/ t2[2] = 0))
-Atomic(loc) == Locked /\ loc = "dirty"
+Atomic(loc) == Locked /\ loc = <<"dirty">>
+\* a (a write) happens-before b: a is earlier in the trace, was published by its thread, and b's thread had observed that publication
+WriteBeforeRead(a, b) == a.kind = "w" /\ a.seq < b.seq /\ a.th[1] \in b.hb
 DataRaceFree ==
     \A a, b \in acc :
-        (a[1] = b[1] /\ Unordered(a[3], b[3]) /\ (a[2] = "w" \/ b[2] = "w"))
-            => (Atomic(a[1]) \/ (a[4] /\ b[4]))
+        (a.loc = b.loc /\ Unordered(a.th, b.th) /\ (a.kind = "w" \/ b.kind = "w"))
+            => (Atomic(a.loc) \/ (a.held /\ b.held) \/ WriteBeforeRead(a, b) \/ WriteBeforeRead(b, a))
 ResultIsSerial ==
     \A e \in Evals : pc[e] = "done" => decoded[e] = TrueLayout /\ order[e] = [i \in 1..NSegs |-> i] /\ slots[e] = 1..NSegs
 \* the decode loop never starts on a vector that is being rebuilt
